@@ -149,6 +149,322 @@ def convexCCWorCW (vs : List (V2 Rat)) : Bool :=
     (let fans := (List.range n).map fun i => cross2 (vsub arr[i]! v0) (vsub arr[(i + 1) % n]! v0)
      fans.all (· ≥ 0) || fans.all (· ≤ 0))
 
+/-! ## 3-D helpers -/
+def fq (x : Quat Float) : String := s!"{ff x.i} {ff x.j} {ff x.k} {ff x.w}"
+def fmp3 (p : MP3 Float) : String := s!"{fv3 p.com} {ff p.invMass} {fv3 p.invI} {fq p.frame}"
+def fm3 (m : M3 Float) : String := s!"{fv3 m.r0} {fv3 m.r1} {fv3 m.r2}"
+def fobs3 (o : Float × V3 Float × M3 Float) : String := s!"{ff o.1} {fv3 o.2.1} {fm3 o.2.2}"
+def pquat : P (Quat Float) := do let i ← pf; let j ← pf; let k ← pf; let w ← pf; pure ⟨i, j, k, w⟩
+def pmp3 : P (MP3 Float) := do let c ← pv3; let im ← pf; let ii ← pv3; let f ← pquat; pure ⟨c, im, ii, f⟩
+def pov3 : P (V3 Float) := do let x ← pfo; let y ← pfo; let z ← pfo; pure ⟨x, y, z⟩
+def pomp3 : P (MP3 Float) := do
+  let c ← pov3; let im ← pfo; let ii ← pov3; let i ← pfo; let j ← pfo; let k ← pfo; let w ← pfo; pure ⟨c, im, ii, ⟨i, j, k, w⟩⟩
+def pom3 : P (M3 Float) := do let a ← pov3; let b ← pov3; let c ← pov3; pure ⟨a, b, c⟩
+def poobs3 : P (Float × V3 Float × M3 Float) := do let m ← pfo; let c ← pov3; let i ← pom3; pure (m, c, i)
+
+abbrev RM3 := Array Rat   -- 9 entries, row major
+def rm (f : Nat → Nat → Rat) : RM3 := (List.range 9).toArray.map fun n => f (n / 3) (n % 3)
+def rget (m : RM3) (i j : Nat) : Rat := m.getD (3 * i + j) 0
+def rmul (a b : RM3) : RM3 := rm fun i j => rget a i 0 * rget b 0 j + rget a i 1 * rget b 1 j + rget a i 2 * rget b 2 j
+def rtr (a : RM3) : RM3 := rm fun i j => rget a j i
+def radd (a b : RM3) : RM3 := rm fun i j => rget a i j + rget b i j
+def rdiag (x y z : Rat) : RM3 := rm fun i j => if i = j then (if i = 0 then x else if i = 1 then y else z) else 0
+def rnorm (a : RM3) : Rat := a.foldl (fun s x => s + rabs x) 0
+def rofM3 (m : M3 Float) : RM3 := #[q m.r0.x, q m.r0.y, q m.r0.z, q m.r1.x, q m.r1.y, q m.r1.z, q m.r2.x, q m.r2.y, q m.r2.z]
+/-- rotation matrix of a (nearly unit) quaternion, normalised exactly: `R = (…)/|q|²` -/
+def rotOfQuat (i j k w : Rat) : RM3 :=
+  let n := i * i + j * j + k * k + w * w
+  if n = 0 then rdiag 1 1 1 else
+  rm fun r c =>
+    let e : Rat := match r, c with
+      | 0, 0 => w*w + i*i - j*j - k*k | 0, 1 => 2*(i*j - w*k) | 0, 2 => 2*(w*j + i*k)
+      | 1, 0 => 2*(w*k + i*j) | 1, 1 => w*w - i*i + j*j - k*k | 1, 2 => 2*(j*k - w*i)
+      | 2, 0 => 2*(i*k - w*j) | 2, 1 => 2*(w*i + j*k) | _, _ => w*w - i*i - j*j + k*k
+    e / n
+/-- exact inertia tensor of raw fields: `R diag(1/invI²) Rᵀ` -/
+def tensorOf (p : MP3 Float) : RM3 :=
+  let R := rotOfQuat (q p.frame.i) (q p.frame.j) (q p.frame.k) (q p.frame.w)
+  let d := rdiag (rinv (q p.invI.x * q p.invI.x)) (rinv (q p.invI.y * q p.invI.y)) (rinv (q p.invI.z * q p.invI.z))
+  rmul (rmul R d) (rtr R)
+/-- `m (|c|² 1 − c cᵀ)` -/
+def steiner (m : Rat) (c : V3 Rat) : RM3 :=
+  let n := c.x * c.x + c.y * c.y + c.z * c.z
+  rm fun i j => m * ((if i = j then n else 0) - c.get i * c.get j)
+/-- moments about the origin of raw fields: `(m, m c, I + steiner)` -/
+def mom3 (p : MP3 Float) : Rat × V3 Rat × RM3 :=
+  let m := rinv (q p.invMass); let c := q3 p.com
+  (m, ⟨c.x * m, c.y * m, c.z * m⟩, radd (tensorOf p) (steiner m c))
+def closeM (a b : RM3) (scale : Rat) : Bool := (List.range 9).all fun n => close (a.getD n 0) (b.getD n 0) scale
+def finiteMP3 (p : MP3 Float) : Bool :=
+  finite3 p.com && FloatIO.isFinite p.invMass && finite3 p.invI &&
+  FloatIO.isFinite p.frame.i && FloatIO.isFinite p.frame.j && FloatIO.isFinite p.frame.k && FloatIO.isFinite p.frame.w
+
+/-! exact integration of polynomials (coefficient lists, lowest degree first): the slicing integrals of solids of
+revolution about the `y` axis are evaluated exactly, independently of the closed forms in the code -/
+def padd (a b : List Rat) : List Rat :=
+  match a, b with
+  | [], b => b
+  | a, [] => a
+  | x :: a, y :: b => (x + y) :: padd a b
+def pscale (a : List Rat) (s : Rat) : List Rat := a.map (· * s)
+def pmulp (a b : List Rat) : List Rat :=
+  match a with
+  | [] => []
+  | x :: a => padd (pscale b x) (0 :: pmulp a b)
+def peval (a : List Rat) (x : Rat) : Rat := a.foldr (fun c acc => c + x * acc) 0
+def pint (a : List Rat) (lo hi : Rat) : Rat :=
+  let anti : List Rat := 0 :: (a.zipIdx.map fun (c, n) => c / ((n : Nat) + 1 : Rat))
+  peval anti hi - peval anti lo
+/-- slicing integrals of a solid of revolution given piecewise by `r(y)²` (polynomials in `y`):
+`(V/π, ∫ y r², ∫ r⁴ , ∫ y² r²)` -/
+def revolve (pieces : List (Rat × Rat × List Rat)) : Rat × Rat × Rat × Rat :=
+  pieces.foldl (fun s (lo, hi, r2) =>
+    (s.1 + pint r2 lo hi, s.2.1 + pint (0 :: r2) lo hi, s.2.2.1 + pint (pmulp r2 r2) lo hi, s.2.2.2 + pint (0 :: 0 :: r2) lo hi)) (0, 0, 0, 0)
+/-- expected `(mass, y of the centroid, I_axis, I_transverse about the centroid)` for density `ρ` -/
+def revolveMoments (ρ : Rat) (pieces : List (Rat × Rat × List Rat)) : Rat × Rat × Rat × Rat :=
+  let (v, fy, r4, y2) := revolve pieces
+  let mass := ρ * piQ * v
+  let yc := if v = 0 then 0 else fy / v
+  let iax := ρ * piQ / 2 * r4
+  let itr0 := ρ * (piQ / 4 * r4 + piQ * y2)
+  (mass, yc, iax, itr0 - mass * yc * yc)
+
+/-- judge an axis-aligned 3-D output (identity frame expected): mass, com `(0, yc, 0)`, principal inertia `(itr, iax, itr)` -/
+def judgeRevolve (ρ : Rat) (pieces : List (Rat × Rat × List Rat)) (L : Rat) (out : MP3 Float) : String :=
+  if !finiteMP3 out then "fail nonfinite-output" else
+  let (mass, yc, iax, itr) := revolveMoments ρ pieces
+  let m := rinv (q out.invMass)
+  let ix := rinv (q out.invI.x * q out.invI.x); let iy := rinv (q out.invI.y * q out.invI.y); let iz := rinv (q out.invI.z * q out.invI.z)
+  let sI := ρ * L * L * L * L * L
+  if !(q out.frame.i = 0 ∧ q out.frame.j = 0 ∧ q out.frame.k = 0 ∧ q out.frame.w = 1) then "fail frame-not-identity"
+  else if !close m mass (ρ * L * L * L) then s!"fail mass got={m} want={mass}"
+  else if !(close (q out.com.x) 0 L && close (q out.com.y) yc L && close (q out.com.z) 0 L) then s!"fail com got-y={q out.com.y} want-y={yc}"
+  else if !close iy iax sI then s!"fail axis-inertia got={iy} want={iax}"
+  else if !(close ix itr sI && close iz itr sI) then s!"fail transverse-inertia got=({ix},{iz}) want={itr}"
+  else "pass"
+
+def isZero3Q (p : MP3 Float) : Bool :=
+  q p.com.x = 0 ∧ q p.com.y = 0 ∧ q p.com.z = 0 ∧ q p.invMass = 0 ∧ q p.invI.x = 0 ∧ q p.invI.y = 0 ∧ q p.invI.z = 0 ∧
+  q p.frame.i = 0 ∧ q p.frame.j = 0 ∧ q p.frame.k = 0 ∧ (q p.frame.w = 1 ∨ q p.frame.w = -1)
+
+def fmc3 (o : Float × V3 Float × M3 Float) : String := s!"{ff o.1} {fv3 o.2.1}"
+def pomc3 : P (Float × V3 Float) := do let m ← pfo; let c ← pov3; pure (m, c)
+def negMom3 (m : Rat × V3 Rat × RM3) : Rat × V3 Rat × RM3 := (-m.1, ⟨-m.2.1.x, -m.2.1.y, -m.2.1.z⟩, m.2.2.map (fun v => -v))
+
+/-- additivity oracle (3-D), mass and first moment: `1e-9` relative to the magnitudes involved -/
+def judgeMC3 (want : Rat × V3 Rat × RM3) (sc : Rat × Rat × Rat) (out : Float × V3 Float) : String :=
+  let (mo, co) := out
+  if !(FloatIO.isFinite mo && finite3 co) then "fail nonfinite-output" else
+  let m := q mo; let c := q3 co
+  if !close m want.1 sc.1 then s!"fail mass got={m} want={want.1}"
+  else if !(close (c.x * m) want.2.1.x sc.2.1 && close (c.y * m) want.2.1.y sc.2.1 && close (c.z * m) want.2.1.z sc.2.1) then "fail first-moment"
+  else "pass"
+
+def rtrace (a : RM3) : Rat := rget a 0 0 + rget a 1 1 + rget a 2 2
+def rdet (a : RM3) : Rat :=
+  rget a 0 0 * (rget a 1 1 * rget a 2 2 - rget a 1 2 * rget a 2 1)
+  - rget a 0 1 * (rget a 1 0 * rget a 2 2 - rget a 1 2 * rget a 2 0)
+  + rget a 0 2 * (rget a 1 0 * rget a 2 1 - rget a 1 1 * rget a 2 0)
+
+/-- additivity oracle (3-D), second moment: the tensor about the centre of mass implied by additivity about the origin,
+`want.J − steiner(M, F/M)`, against the implementation's `reconstruct_inertia_matrix()`; then the same tensor against the
+`Float` model (the correspondence leg of these functions; `check` has only entry-wise relations).
+
+When the tensor is wrong but its three invariants (trace, trace of the square, determinant) are right, the verdict is
+`fail principal-frame …`: the eigenvalues are right and the eigenvectors are not — the signature of nalgebra 0.33.3
+`symmetric_eigen` on matrices with close eigenvalues / nearly block-diagonal matrices (KNOWN_FINDINGS). -/
+def judgeTensor3 (want : Rat × V3 Rat × RM3) (sc : Rat × Rat × Rat) (model : M3 Float) (out : M3 Float) : String :=
+  if !(finite3 out.r0 && finite3 out.r1 && finite3 out.r2) then "fail nonfinite-output" else
+  let M := want.1
+  if M = 0 then "skip massless" else
+  let c : V3 Rat := ⟨want.2.1.x / M, want.2.1.y / M, want.2.1.z / M⟩
+  let st := steiner M c
+  let Ic : RM3 := rm fun i j => rget want.2.2 i j - rget st i j
+  let O := rofM3 out
+  let scale := sc.2.2 + 1 / 1000000000000
+  if closeM O Ic scale then
+    (if closeM O (rofM3 model) scale then "pass" else s!"fail model-tensor-differs got={O.toList} model={(rofM3 model).toList}")
+  else if close (rtrace O) (rtrace Ic) scale && close (rtrace (rmul O O)) (rtrace (rmul Ic Ic)) (scale * scale)
+        && close (rdet O) (rdet Ic) (scale * scale * scale) then
+    let dev := (List.range 9).foldl (fun m n => rmax m (rabs (O.getD n 0 - Ic.getD n 0))) 0
+    s!"fail principal-frame eigenvalues-right eigenvectors-wrong deviation/scale={((dev / scale) * 1000000000).floor}e-9"
+  else s!"fail second-moment got={O.toList} want={Ic.toList}"
+def momScale3 (ps : List (MP3 Float)) : Rat × Rat × Rat :=
+  ps.foldl (fun s p =>
+    let (m, f, J) := mom3 p
+    (s.1 + rabs m, s.2.1 + rabs f.x + rabs f.y + rabs f.z, s.2.2 + rnorm J)) (0, 0, 0)
+def sumMom3 (ms : List (Rat × V3 Rat × RM3)) : Rat × V3 Rat × RM3 :=
+  ms.foldl (fun s e => (s.1 + e.1, ⟨s.2.1.x + e.2.1.x, s.2.1.y + e.2.1.y, s.2.1.z + e.2.1.z⟩, radd s.2.2 e.2.2)) (0, ⟨0, 0, 0⟩, rdiag 0 0 0)
+
+def handler3 (fn : String) : Option Handler :=
+  match fn with
+  | "from_ball3" => some {
+      model := fun a => run (do let d ← pf; let r ← pf; pure (fmp3 (fromBall3 piF d r))) a
+      oracle := fun a o => match run (do let d ← pf; let r ← pf; pure (d, r)) a with
+        | some (d, r) => withOut pomp3 o fun out =>
+            let R := q r
+            judgeRevolve (q d) [(-R, R, [R * R, 0, -1])] R out
+        | none => "skip bad-args" }
+  | "from_cylinder" => some {
+      model := fun a => run (do let d ← pf; let hh ← pf; let r ← pf; pure (fmp3 (fromCylinder piF d hh r))) a
+      oracle := fun a o => match run (do let d ← pf; let hh ← pf; let r ← pf; pure (d, hh, r)) a with
+        | some (d, hh, r) => withOut pomp3 o fun out =>
+            let R := q r; let H := q hh
+            judgeRevolve (q d) [(-H, H, [R * R])] (R + H) out
+        | none => "skip bad-args" }
+  | "from_cone" => some {
+      model := fun a => run (do let d ← pf; let hh ← pf; let r ← pf; pure (fmp3 (fromCone piF d hh r))) a
+      oracle := fun a o => match run (do let d ← pf; let hh ← pf; let r ← pf; pure (d, hh, r)) a with
+        | some (d, hh, r) => withOut pomp3 o fun out =>
+            let R := q r; let H := q hh
+            if H = 0 then "skip flat-cone" else
+            -- r(y) = R (H - y) / (2H): apex at +H, base disc at -H
+            let lin : List Rat := [R / 2, -R / (2 * H)]
+            judgeRevolve (q d) [(-H, H, pmulp lin lin)] (R + H) out
+        | none => "skip bad-args" }
+  | "from_cuboid3" => some {
+      model := fun a => run (do let d ← pf; let he ← pv3; pure (fmp3 (fromCuboid3 d he))) a
+      oracle := fun a o => match run (do let d ← pf; let he ← pv3; pure (d, he)) a with
+        | some (d, he) => withOut pomp3 o fun out =>
+            if !finiteMP3 out then "fail nonfinite-output" else
+            let H := q3 he; let ρ := q d
+            -- box integrals by exact 1-D polynomial integration
+            let len (h : Rat) := pint [1] (-h) h
+            let sec (h : Rat) := pint [0, 0, 1] (-h) h
+            let mass := ρ * len H.x * len H.y * len H.z
+            let sx := ρ * sec H.x * len H.y * len H.z; let sy := ρ * len H.x * sec H.y * len H.z; let sz := ρ * len H.x * len H.y * sec H.z
+            let L := H.x + H.y + H.z
+            let m := rinv (q out.invMass)
+            let ix := rinv (q out.invI.x * q out.invI.x); let iy := rinv (q out.invI.y * q out.invI.y); let iz := rinv (q out.invI.z * q out.invI.z)
+            let sI := ρ * L * L * L * L * L
+            if !(q out.frame.i = 0 ∧ q out.frame.j = 0 ∧ q out.frame.k = 0 ∧ q out.frame.w = 1) then "fail frame-not-identity"
+            else if !(q out.com.x = 0 ∧ q out.com.y = 0 ∧ q out.com.z = 0) then "fail com-not-origin"
+            else if !close m mass (ρ * L * L * L) then s!"fail mass got={m} want={mass}"
+            else if !(close ix (sy + sz) sI && close iy (sx + sz) sI && close iz (sx + sy) sI) then s!"fail inertia got=({ix},{iy},{iz}) want=({sy+sz},{sx+sz},{sx+sy})"
+            else "pass"
+        | none => "skip bad-args" }
+  | "from_capsule3" => some {
+      model := fun a => run (do let d ← pf; let p ← pv3; let p' ← pv3; let r ← pf
+                                let x := fromCapsule3 piF d p p' r
+                                pure s!"{fv3 x.1} {ff x.2.1} {fv3 x.2.2}") a
+      oracle := fun a o => match run (do let d ← pf; let p ← pv3; let p' ← pv3; let r ← pf; pure (d, p, p', r)) a with
+        | some (d, p, p', r) => withOut (do let c ← pov3; let im ← pfo; let ii ← pov3; pure (c, im, ii)) o fun (c, im, ii) =>
+            let A := q3 p; let B := q3 p'; let R := q r
+            let H := sqrtQ ((B.sub A).normSq) / 2
+            let out : MP3 Float := ⟨⟨0, 0, 0⟩, im, ii, ⟨0, 0, 0, 1⟩⟩
+            let res := judgeRevolve (q d) [(-H - R, -H, [R * R - H * H, -2 * H, -1]), (-H, H, [R * R]), (H, H + R, [R * R - H * H, 2 * H, -1])] (R + H) out
+            if res != "pass" then res else
+            let g : V3 Rat := ⟨(A.x + B.x) / 2, (A.y + B.y) / 2, (A.z + B.z) / 2⟩
+            let s := R + H + (rabs g.x + rabs g.y + rabs g.z) / 1000
+            if close (q c.x) g.x s && close (q c.y) g.y s && close (q c.z) g.z s then "pass" else "fail com"
+        | none => "skip bad-args" }
+  | "from_capsule3_frame" => some {
+      model := fun _ => some "oracle-only"
+      oracle := fun a o => match run (do let d ← pf; let p ← pv3; let p' ← pv3; let r ← pf; pure (d, p, p', r)) a with
+        | some (_, p, p', _) => withOut (do let i ← pfo; let j ← pfo; let k ← pfo; let w ← pfo; pure (i, j, k, w)) o fun (i, j, k, w) =>
+            let A := q3 p; let B := q3 p'
+            let dir := B.sub A
+            let n2 := q i * q i + q j * q j + q k * q k + q w * q w
+            if !close n2 1 1 then "fail frame-not-unit" else
+            let Rm := rotOfQuat (q i) (q j) (q k) (q w)
+            -- image of the y axis must be collinear with b - a (principal axis of the capsule)
+            let y : V3 Rat := ⟨rget Rm 0 1, rget Rm 1 1, rget Rm 2 1⟩
+            let c := y.cross dir
+            let L := rabs dir.x + rabs dir.y + rabs dir.z
+            if close c.x 0 (1000 * L) && close c.y 0 (1000 * L) && close c.z 0 (1000 * L) then "pass" else s!"fail frame-axis-not-along-segment"
+        | none => "skip bad-args" }
+  | "mp3_new" => some {
+      model := fun a => run (do let c ← pv3; let m ← pf; let i ← pv3
+                                let p := MP3.new c m i
+                                pure s!"{fmp3 p} {ff p.mass} {fv3 p.principalInertia}") a
+      oracle := fun a o => match run (do let c ← pv3; let m ← pf; let i ← pv3; pure (c, m, i)) a with
+        | some (c, m, i) => withOut (do let p ← pomp3; let m' ← pfo; let i' ← pov3; pure (p, m', i')) o fun (p, m', i') =>
+            if q m < 0 ∨ q i.x < 0 ∨ q i.y < 0 ∨ q i.z < 0 then "skip negative-input" else
+            if !(q p.com.x = q c.x ∧ q p.com.y = q c.y ∧ q p.com.z = q c.z) then "fail com-changed"
+            else if !close (q m') (q m) (rabs (q m)) then "fail mass-roundtrip"
+            else if !(close (q i'.x) (q i.x) (rabs (q i.x)) && close (q i'.y) (q i.y) (rabs (q i.y)) && close (q i'.z) (q i.z) (rabs (q i.z))) then "fail inertia-roundtrip"
+            else if !(q p.frame.i = 0 ∧ q p.frame.j = 0 ∧ q p.frame.k = 0 ∧ q p.frame.w = 1) then "fail frame-not-identity"
+            else "pass"
+        | none => "skip bad-args" }
+  | "mp3_reconstruct" => some {
+      model := fun a => run (do let p ← pmp3; pure (fm3 p.reconstruct)) a
+      oracle := fun a o => match run pmp3 a with
+        | some p => withOut pom3 o fun out =>
+            let T := tensorOf p
+            if closeM (rofM3 out) T (rnorm T + 1 / 1000000000000) then "pass" else "fail reconstruct"
+        | none => "skip bad-args" }
+  | "mp3_transform" => some {
+      model := fun a => run (do let p ← pmp3; let m ← piso3; pure (fmp3 (p.transformBy m))) a
+      oracle := fun a o => match run (do let p ← pmp3; let m ← piso3; pure (p, m)) a with
+        | some (p, m) => withOut pomp3 o fun out =>
+            if !finiteMP3 out then "fail nonfinite-output" else
+            let M := qiso3 m
+            let Rm := rotOfQuat M.qi M.qj M.qk M.qw
+            let c := q3 p.com
+            let rc : V3 Rat := ⟨rget Rm 0 0 * c.x + rget Rm 0 1 * c.y + rget Rm 0 2 * c.z + M.t.x,
+                                rget Rm 1 0 * c.x + rget Rm 1 1 * c.y + rget Rm 1 2 * c.z + M.t.y,
+                                rget Rm 2 0 * c.x + rget Rm 2 1 * c.y + rget Rm 2 2 * c.z + M.t.z⟩
+            let s := rabs c.x + rabs c.y + rabs c.z + rabs M.t.x + rabs M.t.y + rabs M.t.z + 1 / 1000000
+            let T := rmul (rmul Rm (tensorOf p)) (rtr Rm)
+            if q out.invMass ≠ q p.invMass ∨ q out.invI.x ≠ q p.invI.x ∨ q out.invI.y ≠ q p.invI.y ∨ q out.invI.z ≠ q p.invI.z then "fail mass-or-inertia-changed"
+            else if !(close (q out.com.x) rc.x s && close (q out.com.y) rc.y s && close (q out.com.z) rc.z s) then "fail com"
+            else if !closeM (tensorOf out) T (rnorm T + 1 / 1000000000000) then "fail rotated-tensor"
+            else "pass"
+        | none => "skip bad-args" }
+  | "mp3_add" => some {
+      model := fun a => run (do let x ← pmp3; let y ← pmp3; pure (fmc3 (MP3.addObs x y))) a
+      oracle := fun a o => match run (do let x ← pmp3; let y ← pmp3; pure (x, y)) a with
+        | some (x, y) => withOut pomc3 o fun out =>
+            if q x.invMass < 0 ∨ q y.invMass < 0 then "skip negative-mass" else
+            judgeMC3 (sumMom3 [mom3 x, mom3 y]) (momScale3 [x, y]) out
+        | none => "skip bad-args" }
+  | "mp3_add_tensor" => some {
+      model := fun a => run (do let x ← pmp3; let y ← pmp3; pure (fm3 (MP3.addObs x y).2.2)) a
+      oracle := fun a o => match run (do let x ← pmp3; let y ← pmp3; pure (x, y)) a with
+        | some (x, y) => withOut pom3 o fun out =>
+            if q x.invMass < 0 ∨ q y.invMass < 0 then "skip negative-mass" else
+            judgeTensor3 (sumMom3 [mom3 x, mom3 y]) (momScale3 [x, y]) (MP3.addObs x y).2.2 out
+        | none => "skip bad-args" }
+  | "mp3_sub" => some {
+      model := fun a => run (do let x ← pmp3; let y ← pmp3; pure (fmc3 (MP3.subObs x y))) a
+      oracle := fun a o => match run (do let x ← pmp3; let y ← pmp3; pure (x, y)) a with
+        | some (x, y) => withOut pomc3 o fun out =>
+            if q x.invMass < 0 ∨ q y.invMass < 0 then "skip negative-mass" else
+            if isZero3Q x ∨ isZero3Q y then "skip zero-operand" else
+            let mx := mom3 x; let my := mom3 y
+            if mx.1 - my.1 < 1 / 1000000 then "skip mass-below-threshold" else
+            judgeMC3 (sumMom3 [mx, negMom3 my]) (momScale3 [x, y]) out
+        | none => "skip bad-args" }
+  | "mp3_sub_tensor" => some {
+      model := fun a => run (do let x ← pmp3; let y ← pmp3; pure (fm3 (MP3.subObs x y).2.2)) a
+      oracle := fun a o => match run (do let x ← pmp3; let y ← pmp3; pure (x, y)) a with
+        | some (x, y) => withOut pom3 o fun out =>
+            if q x.invMass < 0 ∨ q y.invMass < 0 then "skip negative-mass" else
+            if isZero3Q x ∨ isZero3Q y then "skip zero-operand" else
+            let mx := mom3 x; let my := mom3 y
+            if mx.1 - my.1 < 1 / 1000000 then "skip mass-below-threshold" else
+            judgeTensor3 (sumMom3 [mx, negMom3 my]) (momScale3 [x, y]) (MP3.subObs x y).2.2 out
+        | none => "skip bad-args" }
+  | "mp3_sum" => some {
+      model := fun a => run (do let ps ← plist pmp3; pure (fmc3 (MP3.sumObs ps))) a
+      oracle := fun a o => match run (plist pmp3) a with
+        | some ps => withOut pomc3 o fun out =>
+            if ps.any (fun p => q p.invMass < 0) then "skip negative-mass" else
+            let tot := sumMom3 (ps.map mom3)
+            if tot.1 = 0 then "skip massless-family" else
+            judgeMC3 tot (momScale3 ps) out
+        | none => "skip bad-args" }
+  | "mp3_sum_tensor" => some {
+      model := fun a => run (do let ps ← plist pmp3; pure (fm3 (MP3.sumObs ps).2.2)) a
+      oracle := fun a o => match run (plist pmp3) a with
+        | some ps => withOut pom3 o fun out =>
+            if ps.any (fun p => q p.invMass < 0) then "skip negative-mass" else
+            let tot := sumMom3 (ps.map mom3)
+            if tot.1 = 0 then "skip massless-family" else
+            judgeTensor3 tot (momScale3 ps) (MP3.sumObs ps).2.2 out
+        | none => "skip bad-args" }
+  | _ => none
+
 def handler (fn : String) : Option Handler :=
   match fn with
   | "tri_area" => some {
@@ -355,6 +671,6 @@ def handler (fn : String) : Option Handler :=
                else "fail massless-sum")
             else judgeMoments tot (momScale ps) out
         | none => "skip bad-args" }
-  | _ => none
+  | _ => handler3 fn
 
 end C13
